@@ -92,6 +92,29 @@ def run(tier):
             got = c.allows(v)
             if got != want:
                 R.fail(dict(spec=s, candidate=v.text), f"constraint {c} admits={got}, reference contains={want}")
+    # Spec/Specifier.v against the reference, single clauses: any literal for >=, <=, ==, !=; final literals for >, <
+    sreq, sidx = [], []
+    for _ in range(800 if tier == "quick" else 20000):
+        pool = GC.gen_pool(rng, locals_=rng.random() < 0.3, epochs=rng.random() < 0.3)
+        op = rng.choice([">=", "<=", "==", "!=", ">", "<"])
+        lit = rng.choice(pool)
+        lv = Version.parse(lit)
+        if op in (">", "<") and (lv.is_prerelease() or lv.is_postrelease() or lv.is_devrelease() or lv.is_local()):
+            lit = lit.split("+")[0]
+            lv = Version(epoch=lv.epoch, release=lv.release); lit = lv.text
+        if op in (">=", "<=", ">", "<") and lv.is_local():
+            continue
+        cands = [v.text for v in I.critical_probes([lv])]
+        sreq.append(["spcontains", op, lit] + cands); sidx.append((op, lit, cands))
+    sres = M.many(sreq)
+    fres = F.many([["contains", op + lit, cands] for op, lit, cands in sidx])
+    for (op, lit, cands), sp, fr in zip(sidx, sres, fres):
+        if fr[0] != "ok": continue
+        R.count("spec_vs_reference_clauses")
+        want = ["true" if x else "false" for x in fr[1:]]
+        if sp != want:
+            bad = [(c, a, b) for c, a, b in zip(cands, sp, want) if a != b][:3]
+            R.spec_broken(dict(clause=op + lit), bad, "reference")
     # poetry's own operators on regular candidates
     for _ in range(1500 if tier == "quick" else 30000):
         pool = GC.gen_pool(rng, locals_=False)
